@@ -13,6 +13,7 @@ Cone (computed here from the configuration only, conservatively -- a larger cone
 import copy
 import itertools
 import logging
+import time
 import warnings
 
 import numpy as np
@@ -22,6 +23,7 @@ from affine import Affine
 from bounded.common import Recorder, same
 
 H, W = 40, 60
+PARITY = "half-integer-left-disparity@odd-column-offset"  # x.5 + column index rounds to the even neighbour
 INVALID_BITS = 0b01111000011  # user guide, validity mask: bits 0, 1, 6, 7, 8, 9 mark an invalid pixel
 _FUNCS = ["pandora.run", "pandora.check_configuration.check_pipeline_section",
           "pandora.check_configuration.check_datasets", "pandora.state_machine.PandoraMachine.check_conf",
@@ -117,8 +119,8 @@ def build(mc, win, cbca, refine, filt, xcheck):
     return p
 
 
-def signature(p):
-    s = "%s%d" % (p["matching_cost"]["matching_cost_method"], p["matching_cost"]["window_size"])
+def signature(p, with_mc=True):
+    s = "%s%d" % (p["matching_cost"]["matching_cost_method"], p["matching_cost"]["window_size"]) if with_mc else "mc"
     for step, key in (("aggregation", "aggregation_method"), ("refinement", "refinement_method"),
                       ("filter", "filter_method"), ("validation", "validation_method")):
         if step in p:
@@ -182,8 +184,10 @@ def crops_for(p, interval, tier, rng):
                     (rows[-1], cols[-1]), (0, cols[min(3, len(cols) - 1)])]
         else:
             fixed = [(rows[min(1, len(rows) - 1)], cols[min(2, len(cols) - 1)]), (rows[-1], cols[-1]), (0, 0)]
+            if (ih, iw) != (6, 8):
+                fixed = fixed[:1]
             rest = [g for g in grid if g not in fixed]
-            k = min(len(rest), 5 if (ih, iw) == (6, 8) else 2)
+            k = min(len(rest), 3 if (ih, iw) == (6, 8) else 1)
             want = fixed + [rest[i] for i in sorted(rng.choice(len(rest), size=k, replace=False))] if rest else fixed
         for r0, c0 in dict.fromkeys(want):
             out.append((int(r0), int(c0), int(h), int(w)))
@@ -201,17 +205,24 @@ def crop_mismatch(p, interval, pair, whole, crop, rebased):
         disp, val = run_pipeline(p, left[sl], right[sl], None if ml is None else ml[sl], None if mr is None else mr[sl],
                                  interval, 0 if rebased else r0, 0 if rebased else c0)
     except Exception as exc:  # the whole image was processed, so must the crop be
-        return "runs", "crop run raised %s: %s" % (type(exc).__name__, str(exc)[:200])
+        return "runs", "crop run raised %s: %s" % (type(exc).__name__, str(exc)[:200]), type(exc).__name__
     if disp.shape != (h, w) or val.shape != (h, w):
-        return "shape", "crop outputs have shapes %s/%s, expected %s" % (disp.shape, val.shape, (h, w))
+        return "shape", "crop outputs have shapes %s/%s, expected %s" % (disp.shape, val.shape, (h, w)), "shape"
     inner = (slice(mrow, h - mrow), slice(mcol, w - mcol))
     glob = (slice(r0 + mrow, r0 + h - mrow), slice(c0 + mcol, c0 + w - mcol))
     for name, a, b in (("disparity_map", whole[0][glob], disp[inner]), ("validity_mask", whole[1][glob], val[inner])):
         if not same(a, b):
             bad = np.argwhere(~((a == b) | ((a != a) & (b != b))))[0]
             rr, cc = int(bad[0]), int(bad[1])
-            return name, "%s differs at image pixel (%d,%d): whole=%r crop=%r (crop %s, interior margins %d/%d)" % (
-                name, glob[0].start + rr, glob[1].start + cc, a[rr, cc].item(), b[rr, cc].item(), list(crop), mrow, mcol)
+            dsp = float(whole[0][glob][rr, cc])
+            # diagnosis only (keeps a known cause apart from other failures of the same clause)
+            cg = glob[1].start + cc
+            parity = (name == "validity_mask" and "validation" in p and abs(dsp) < 1000 and (2 * dsp) % 2 == 1
+                      and np.rint(cg + dsp) - cg != np.rint(cg - c0 + dsp) - (cg - c0))
+            tag = PARITY if parity else p["matching_cost"]["matching_cost_method"]
+            return name, "%s differs at image pixel (%d,%d): whole=%r crop=%r; whole disparity there %r (crop %s, " \
+                         "interior margins %d/%d)" % (name, glob[0].start + rr, glob[1].start + cc, a[rr, cc].item(),
+                                                      b[rr, cc].item(), dsp, list(crop), mrow, mcol), tag
     return None
 
 
@@ -221,7 +232,7 @@ def flip_mismatch(p, interval, pair, whole):
         disp, val = run_pipeline(p, left[::-1], right[::-1], None if ml is None else ml[::-1],
                                  None if mr is None else mr[::-1], interval)
     except Exception as exc:
-        return "runs", "flipped run raised %s: %s" % (type(exc).__name__, str(exc)[:200])
+        return "runs", "flipped run raised %s: %s" % (type(exc).__name__, str(exc)[:200]), type(exc).__name__
     disp, val = disp[::-1], val[::-1]
     bilateral = p.get("filter", {}).get("filter_method") == "bilateral"
     if bilateral:  # the weighted sums are accumulated in the mirrored order: float64 round-off allowed
@@ -231,16 +242,16 @@ def flip_mismatch(p, interval, pair, whole):
     if not ok:
         bad = np.argwhere(~(np.isclose(whole[0], disp, rtol=0, atol=1e-5 if bilateral else 0, equal_nan=True)))[0]
         return "disparity_map", "disparity_map(flipped inputs) flipped back differs at (%d,%d): %r vs %r" % (
-            bad[0], bad[1], whole[0][tuple(bad)].item(), disp[tuple(bad)].item())
+            bad[0], bad[1], whole[0][tuple(bad)].item(), disp[tuple(bad)].item()), p["matching_cost"]["matching_cost_method"]
     if not same(whole[1], val):
         bad = np.argwhere(whole[1] != val)[0]
         return "validity_mask", "validity_mask(flipped inputs) flipped back differs at (%d,%d): %r vs %r" % (
-            bad[0], bad[1], whole[1][tuple(bad)].item(), val[tuple(bad)].item())
+            bad[0], bad[1], whole[1][tuple(bad)].item(), val[tuple(bad)].item()), p["matching_cost"]["matching_cost_method"]
     return None
 
 
 def evaluate(w):
-    """re-evaluate one witness-shaped case; returns None or (part, message)"""
+    """re-evaluate one witness-shaped case; returns None or (clause part, message, diagnosis tag)"""
     p, interval = w["pipeline"], [int(w["interval"][0]), int(w["interval"][1])]
     pair = make_pair(w["img_seed"], interval, bool(w["masks"]))
     whole = run_pipeline(p, *pair, interval)
@@ -281,6 +292,29 @@ def shrink(w):
     return w
 
 
+def _class(variant, wit, res):
+    if res[2] == PARITY:
+        return "%s:xcheck:%s" % (variant, PARITY)
+    return "%s:%s%s:%s" % (variant, signature(wit["pipeline"], False), "+masks" if wit["masks"] else "", res[2])
+
+
+def report(rec, wit, res, variant):
+    """record one violation with its shrunk witness; class = failing coordinate variant : diagnosis, the diagnosis being
+    the rounding-parity one or else `optional steps (+masks) : matching-cost method` of the shrunk pipeline"""
+    clause = "C13.%s.%s" % (wit["kind"], res[0])
+    pre = _class(variant, wit, res)
+    if any(v["clause"] == clause and pre in (v["witness_class"], v["witness"].get("_found_as")) for v in rec.violations):
+        return  # same finding already shrunk and recorded: do not pay the shrinking again
+    small = shrink(wit)
+    try:
+        res2 = evaluate(small) or res
+    except Exception:
+        small, res2 = wit, res
+    small["_found_as"] = pre
+    rec.violation(clause="C13.%s.%s" % (wit["kind"], res2[0]), witness_class=_class(variant, small, res2), message=res2[1],
+                  witness=small)
+
+
 # --------------------------------------------------------------------------------------------------------------- run
 def run(tier: str, seed: int) -> dict:
     rec = Recorder()
@@ -293,14 +327,19 @@ def run(tier: str, seed: int) -> dict:
         pipes = sorted(QUICK_FIXED + extra, key=lambda p: (len(p), signature(p)))
         n_img = 1
     else:
-        pipes = fam
-        n_img = 2
+        pipes = [fam[i] for i in rng.permutation(len(fam))]  # unbiased if the time budget cuts the enumeration
+        n_img = 1
     seen = set()
+    t_start, budget = time.time(), (65.0 if tier == "quick" else 1020.0)
+    done = 0
     for p in pipes:
+        if time.time() - t_start > budget:
+            break
+        done += 1
         sig = signature(p)
         for k in range(n_img):
             interval = intervals[int(rng.integers(len(intervals)))]
-            masks = bool((k + int(rng.integers(2))) % 2) if tier != "quick" else bool(rng.integers(2))
+            masks = bool(rng.integers(2))
             img_seed = int(seed) * 1000 + int(rng.integers(1000))
             ident = (sig, tuple(interval), masks, img_seed)
             if ident in seen:
@@ -320,6 +359,7 @@ def run(tier: str, seed: int) -> dict:
             for crop in crops_for(p, interval, tier, rng):
                 r0, c0, h, w = crop
                 inner_valid = valid[r0 + mrow:r0 + h - mrow, c0 + mcol:c0 + w - mcol]
+                failed = {}
                 for rebased in (False, True):
                     res = crop_mismatch(p, interval, pair, whole, crop, rebased)
                     rec.case(key=ident + (crop, rebased), nontrivial=bool(inner_valid.size and inner_valid.any()),
@@ -328,30 +368,26 @@ def run(tier: str, seed: int) -> dict:
                                      "cone_margins_row_col": [mrow, mcol],
                                      "interior_pixels": int(inner_valid.size), "interior_valid": int(inner_valid.sum())})
                     if res is not None:
-                        wit = dict(base_w, kind="crop", crop=list(crop), rebased=rebased)
-                        small = shrink(wit)
-                        res2 = evaluate(small) or res
-                        rec.violation(clause="C13.crop." + res2[0],
-                                      witness_class="%s:%s" % ("coords-rebased-0" if small["rebased"] else "coords-at-crop-origin",
-                                                               signature(small["pipeline"]) + ("+masks" if small["masks"] else "")),
-                                      message=res2[1], witness=small)
+                        failed[rebased] = res
+                if failed:
+                    # both coordinate variants fail -> the crop offset itself matters; else the coordinates do
+                    variant = "any-coords" if len(failed) == 2 else ("coords-rebased-0" if True in failed else "coords-at-crop-origin")
+                    rebased = True in failed
+                    report(rec, dict(base_w, kind="crop", crop=list(crop), rebased=rebased), failed[rebased], variant)
             res = flip_mismatch(p, interval, pair, whole)
             rec.case(key=ident + ("flip",), nontrivial=bool(valid.any()),
                      sample={"pipeline": sig, "interval": interval, "masks": masks, "img_seed": img_seed, "kind": "vertical-flip"})
             if res is not None:
-                small = shrink(dict(base_w, kind="flip"))
-                res2 = evaluate(small) or res
-                rec.violation(clause="C13.flip." + res2[0],
-                              witness_class="flip:" + signature(small["pipeline"]) + ("+masks" if small["masks"] else ""),
-                              message=res2[1], witness=small)
+                report(rec, dict(base_w, kind="flip"), res, "flip")
     bound = ("40x60 integer-valued (0..31) synthetic pairs (right = left shifted by 2 in-interval shifts + noise in {-1,0,1}), "
              "optional masks (2%% no-data, 3%% invalid); pipelines = {sad,ssd,census,zncc} x window {3,5} [x cbca(distance 3, "
              "intensity 8), not with zncc] x wta x refinement {none,vfit,quadratic} x filter {none, median 3, bilateral "
              "sigma_space 2 (window 7)} x validation {none, cross_checking_accurate}, subpix 1 (%d pipelines; quick: 8 fixed + 8 "
              "seeded); disparity intervals {[-3,2],[-2,3],[-3,0],[0,3],[-2,2]}; crops = cone + interior {6x8%s} at offsets "
-             "from rows {0,1,2,5,max-1,max} x cols {0,1,2,7,12,max-1,max} (quick 4 / thorough up to 12 per pipeline-image), each "
-             "with coordinates at the crop origin and re-based at 0; plus the vertical flip of the whole pair"
-             % (len(fam), "" if tier == "quick" else ", 3x13, 11x4"))
+             "from rows {0,1,2,5,max-1,max} x cols {0,1,2,7,12,max-1,max} (quick 4 / thorough up to 10 per pipeline-image), each "
+             "with coordinates at the crop origin and re-based at 0; plus the vertical flip of the whole pair. This run: %d of "
+             "%d selected pipelines enumerated within the time budget of %d s"
+             % (len(fam), "" if tier == "quick" else ", 3x13, 11x4", done, len(pipes), budget))
     rule = ("case = (pipeline, interval, masks, image seed, crop rectangle, coordinate variant) or (..., vertical flip); "
             "whole-image pandora.run vs crop pandora.run (fresh machine, configuration checked by check_pipeline_section, datasets "
             "by check_datasets) compared bit-exactly (nan-aware) for disparity_map and validity_mask on the pixels at least "
@@ -360,8 +396,11 @@ def run(tier: str, seed: int) -> dict:
             "map, exactly, except disparity_map after the bilateral filter (atol 1e-5: mirrored summation order). "
             "distinct = distinct case tuples; non-trivial = the compared region holds at least one pixel that the whole run "
             "declares valid (no invalidating bit 0,1,6,7,8,9). zncc+cbca excluded (float32 running sums of non-integers). "
-            "A failing case is shrunk by dropping optional steps/masks while it still fails; witness_class names the "
-            "coordinate variant and the shrunk pipeline.")
+            "A failing case is shrunk by dropping optional steps/masks while it still fails; witness_class = coordinate "
+            "variant that fails (any-coords if both) : diagnosis, where the diagnosis is `xcheck:half-integer-left-disparity@"
+            "odd-column-offset` when the differing flag sits on a pixel whose left disparity is x.5 and rint(column index + "
+            "disparity) picks different correspondents in the two framings, else `optional steps of the shrunk pipeline : "
+            "matching-cost method`.")
     return rec.result(bound=bound, rule=rule)
 
 
